@@ -117,8 +117,11 @@ def failure (L : Lits α) (s : State α) (cnt : Counters) (setDecomp : Bool) : S
 
 /-- outcome of the simplified Newton iteration, as far as control is concerned -/
 inductive Newton (α : Type) where
-  /-- left through `break 'newton` (converged, or predicted too slow: then `h` was already reduced) -/
+  /-- left through `break 'newton`: converged -/
   | done (newt : Nat) (theta thqold dynold faccon : α) (h hhfac : α) (rejected : Nat) (last : Bool) (ode : Nat)
+  /-- convergence predicted too slow: `h` reduced, the step is repeated (`continue 'main`, as RADAU5 does; fix of the
+      fall-through into the error test) -/
+  | slow (newt : Nat) (theta thqold dynold faccon : α) (h hhfac : α) (rejected : Nat) (ode : Nat)
   /-- iteration limit reached or diverging (`theta ≥ 0.99`) -/
   | failed (newt : Nat) (theta thqold dynold faccon : α) (ode : Nat)
   /-- the oracle ran out of `dyno` values (never the case on a recorded run) -/
@@ -150,7 +153,7 @@ def newtonLoop (L : Lits α) (P : Params α) : Nat → List α → (newt : Nat) 
             if dyth ≥ L.one then
               let qnewt := Num.fmax L.em4 (Num.fmin L.twenty dyth)
               let hhfac := L.p8 * Num.pow qnewt (-L.one / (L.four + rem))
-              .done newt theta thqold dynold faccon (h * hhfac) hhfac (rejected + 1) false ode
+              .slow newt theta thqold dynold faccon (h * hhfac) hhfac (rejected + 1) ode
             else continueWith theta thqold faccon
           else .failed newt theta thqold dynold faccon ode
         else continueWith theta thqold faccon
@@ -248,6 +251,9 @@ def pass (L : Lits α) (P : Params α) (s : State α) (o : PassOracle α) : Sum 
       | .starved => .inr { status := .oracleExhausted, h := s.h, x := s.x, cnt := cnt }
       | .failed _ theta thqold dynold faccon ode =>
         failure L { s with theta := theta, thqold := thqold, dynold := dynold, faccon := faccon } { cnt with ode := ode } true
+      | .slow _ theta thqold dynold faccon h hhfac rejected ode =>
+        .inl { s with theta := theta, thqold := thqold, dynold := dynold, faccon := faccon, h := h, hhfac := hhfac,
+                      reject := true, last := false, callDecomp := true, cnt := { cnt with ode := ode, rejected := rejected } }
       | .done newt theta thqold dynold faccon h hhfac rejected last ode =>
         finishStep L P s o newt theta thqold dynold faccon h hhfac last { cnt with ode := ode, rejected := rejected } xph
 
